@@ -2,8 +2,10 @@
 
 Specifications (TLC): HDFStore.tla (abstract database + content of the file + problem description flag),
 HDFStoreImpl.tla (the file as _hdf_database.py lays it out: x / k / v / arr_i, the append bookkeeping, the
-pending buffer; refines HDFStore), HDFStoreTrace.tla (validates recorded histories), DesignSpaceFile.tla
-(text and HDF5 layouts of a design space), HDFCacheFile.tla (HDF5 cache reopening).
+pending buffer; refines HDFStore), HDFStoreMerge.tla (HDFStoreImpl + other files, written by other databases,
+read with update_from_hdf between the append exports), HDFStoreTrace.tla (validates recorded histories),
+DesignSpaceFile.tla (text and HDF5 layouts of a design space), HDFCacheFile.tla (HDF5 cache reopening; the
+representations of the cached Jacobians).
 
 Binding:
  * spec -> code: the state graph of HDFStoreImpl is walked on a real `Database` (alone or owned by an
@@ -25,6 +27,7 @@ import random
 from ..core import Check, Graph, MachineryError, main
 from . import c11_replay as rp
 
+WORKERS = 4  # TLC workers (the machine is shared)
 INVARIANTS = ["TypeOK", "NoHole", "KeysAligned", "FileWithinDb", "IndexConsistency", "PendingCovers",
               "RoundTrip", "FullDecodes", "AppendEqualsFull"]
 PROPERTIES = ["RoundTripStep", "Refines"]
@@ -41,21 +44,40 @@ CONFIGS = {
     # the database of an OptimizationProblem, exported with the problem or alone
     "P": (2, {"@f": "vector", "f": "scalar"}, True),
     "Q": (2, {"@f": "vector", "c": "size1", "f": "scalar"}, True),
+    # with other files (HDFStoreMerge): [nkeys, kinds, problem, MaxForeign]
+    "M": (2, {"@f": "vector", "f": "scalar"}, False, 2),
+    "N": (3, {"g": "size1"}, False, 3),
+    "O": (2, {"@f": "vector", "f": "scalar", "g": "size1"}, False, 2),
 }
+
+
+def with_problem_of(conf):
+    return len(CONFIGS[conf]) > 2 and bool(CONFIGS[conf][2])
+
+
+def foreign_of(conf):
+    return CONFIGS[conf][3] if len(CONFIGS[conf]) > 3 else 0
+
+
+def module_of(conf):
+    return "HDFStoreMerge" if foreign_of(conf) else "HDFStoreImpl"
 
 
 def tla_set(xs):
     return "{" + ", ".join('"%s"' % x for x in sorted(xs)) + "}"
 
 
-def cfg(conf, *, props=True, constraint=None):
+def cfg(conf, *, props=True, constraint=None, abstract=False):
     nkeys, kinds = CONFIGS[conf][:2]
-    with_problem = len(CONFIGS[conf]) > 2
+    with_problem = with_problem_of(conf)
     by = lambda kind: tla_set(n for n, k in kinds.items() if k == kind)  # noqa: E731
     s = (f"CONSTANTS NKeys = {nkeys}\n Names = {tla_set(kinds)}\n Scalars = {by('scalar')}\n"
          f" Size1s = {by('size1')}\n Vectors = {by('vector')}\n Matrices = {by('matrix')}\n"
-         f" WithProblem = {'TRUE' if with_problem else 'FALSE'}\n"
-         "SPECIFICATION Spec\nCHECK_DEADLOCK FALSE\n")
+         f" WithProblem = {'TRUE' if with_problem else 'FALSE'}\n")
+    if foreign_of(conf) and not abstract:
+        s += f" MaxForeign = {foreign_of(conf)}\nSPECIFICATION MSpec\nCHECK_DEADLOCK FALSE\n"
+    else:
+        s += "SPECIFICATION Spec\nCHECK_DEADLOCK FALSE\n"
     for i in INVARIANTS:
         s += f"INVARIANT {i}\n"
     if props:
@@ -100,21 +122,22 @@ def explore(ck: Check, conf, *, dump, light=False):
     export step leaves Decode(file) = db = Decode(full export), and HDFStoreImpl refines HDFStore.
     With dump, the labelled state graph is written for the tour.  light: the state invariants only (the
     largest configuration; the step property and the refinement are checked on the others)."""
-    with_problem = len(CONFIGS[conf]) > 2
+    with_problem = with_problem_of(conf)
     if light:
-        return ck.tlc("HDFStoreImpl", cfg(conf, props=False), workers=8, timeout=1700, coverage=False)
-    r = ck.tlc("HDFStoreImpl", cfg(conf), workers=8, timeout=1700, dump=dump, require_actions=ACTIONS)
-    taken(r, ("Reload", "Update") + (PROBLEM_ACTIONS if with_problem else ()))
+        return ck.tlc(module_of(conf), cfg(conf, props=False), workers=WORKERS, timeout=1700, coverage=False)
+    r = ck.tlc(module_of(conf), cfg(conf), workers=WORKERS, timeout=1700, dump=dump, require_actions=ACTIONS)
+    taken(r, ("Reload", "Update") + (PROBLEM_ACTIONS if with_problem else ())
+          + (("UpdateFrom",) if foreign_of(conf) else ()))
     return r
 
 
 def abstract_check(ck: Check, conf):
     """the abstract module on its own (its invariants are about content only)"""
-    s = cfg(conf, props=False)
+    s = cfg(conf, props=False, abstract=True)
     s = "\n".join(line for line in s.splitlines() if not line.startswith("INVARIANT")) + "\n"
     s += "INVARIANT TypeOK\nINVARIANT PendingCovers\nINVARIANT RoundTrip\nPROPERTY AppendEqualsFull\n"
-    taken(ck.tlc("HDFStore", s, workers=8, timeout=600, require_actions=ACTIONS),
-          ("Reload", "Update") + (PROBLEM_ACTIONS if len(CONFIGS[conf]) > 2 else ()))
+    taken(ck.tlc("HDFStore", s, workers=WORKERS, timeout=600, require_actions=ACTIONS),
+          ("Reload", "Update", "UpdateFrom") + (PROBLEM_ACTIONS if with_problem_of(conf) else ()))
 
 
 def tour(ck: Check, conf, *, max_len, io_budget, nproc, rng):
@@ -124,12 +147,19 @@ def tour(ck: Check, conf, *, max_len, io_budget, nproc, rng):
     t0 = time.time()
     r = explore(ck, conf, dump=True)
     t1 = time.time()
-    with_problem = len(CONFIGS[conf]) > 2
-    g = rp.canonicalise(Graph(ck.work / "HDFStoreImpl.dot"))
+    with_problem = with_problem_of(conf)
+    dot = ck.work / (module_of(conf) + ".dot")
+    g = rp.canonicalise(Graph(dot))
     if len(g.states) != r.distinct:
         raise MachineryError(f"graph dump has {len(g.states)} states, TLC found {r.distinct}")
     t = rp.Tour(g)
-    is_io = lambda e: e[2] in rp.IO_ACTIONS  # noqa: E731
+    # the files read from other databases that bring nothing new are many (every subset of what the working
+    # database already has): a tenth of them is wanted, the others are taken when they lie on the way
+    idle = [k for k, e in enumerate(g.edges)
+            if e[2] == "UpdateFrom" and rp.canon(g.states[e[0]]["db"]) == rp.canon(g.states[e[1]]["db"])]
+    skipped = set(idle) - set(rng.sample(idle, len(idle) // 10))
+    skipped = {g.edges[k] for k in skipped}
+    is_io = lambda e: e[2] in rp.IO_ACTIONS and e not in skipped  # noqa: E731
     n_edges = len(g.edges)
     n_io = sum(1 for e in g.edges if is_io(e))
     if io_budget is None:
@@ -152,13 +182,16 @@ def tour(ck: Check, conf, *, max_len, io_budget, nproc, rng):
     results.sort(key=lambda x: x["idx"])
     steps = sum(x["steps"] for x in results)
     for x in results:
+        new = False
         for v in x["viol"]:
             sig = {"what": v["what"], "ops": v["ops"], "config": conf, "node": v["node"]}
+            if "text" in v:
+                sig["text"] = v["text"]
             if len(v["ops"]) > 12:
                 sig["ops"] = v["ops"][-12:]
-            ck.violation(v["clause"], sig, dict(v["detail"], ops=v["ops"], config=conf,
-                                                kinds=CONFIGS[conf][1]))
-        if not x["viol"]:
+            new |= ck.violation(v["clause"], sig, dict(v["detail"], ops=v["ops"], config=conf,
+                                                       kinds=CONFIGS[conf][1]))
+        if not new:  # (a known finding about the problem description does not stop the walk)
             ck.traces += 1
     for x in results[:1]:
         w = walks[x["idx"]]
@@ -166,13 +199,25 @@ def tour(ck: Check, conf, *, max_len, io_budget, nproc, rng):
                    "ops": [rp.op_name(g.edges[k][2], g.edges[k][3])
                            + (str(list(map(_js, g.edges[k][3]))) if g.edges[k][2].startswith("Store") else "")
                            for k in w[:14]], "walk_length": len(w)})
+    if foreign_of(conf):
+        # vacuity of the two-file dimension, counted on what was replayed: an append export to the working
+        # database's non-empty file, then another file that brings something, then an append export again
+        shapes = {}
+        for x in results:
+            for b in x.get("merges", ()):
+                shapes[b] = shapes.get(b, 0) + 1
+        ck.extra.setdefault("other_files_between_append_exports", {})[conf] = shapes
+        stopped = any(x["steps"] < x["len"] for x in results)  # (walks cut short by a violation cover less)
+        if not stopped and (not any("points" in b for b in shapes) or not any("outputs" in b for b in shapes)):
+            raise MachineryError(f"vacuity: no Export(append); UpdateFrom(new points / new outputs); Export(append) "
+                                 f"in the walks of configuration {conf}: {shapes}")
     info = {"states": len(g.states), "edges": n_edges, "io_edges": n_io, "walks": len(walks),
             "wanted_edges_covered": covered, "wanted_edges": wanted, "steps_replayed": steps,
             "exports": sum(x["exports"] for x in results), "reloads": sum(x["reloads"] for x in results),
             "sampled": sampled,
             "wall_s": {"tlc": round(t1 - t0, 1), "graph+tour": round(t2 - t1, 1), "replay": round(time.time() - t2, 1)}}
     ck.extra.setdefault("tours", {})[conf] = info
-    (ck.work / "HDFStoreImpl.dot").unlink()
+    dot.unlink()
     return info
 
 
@@ -197,6 +242,18 @@ def spec_selftest(ck: Check):
         raise MachineryError(f"spec self-test: the mutated append bookkeeping was not refuted ({r.violated})")
     ck.extra["spec_selftest"] = {"mutation": "missing ids without offset", "refuted_by": r.violated,
                                  "counterexample_length": len(r.counterexample())}
+    # ... and a reading of another file that does not queue what it read for the next append export
+    shutil.copy(SPECS / "HDFStoreMerge.tla", d / "HDFStoreMerge.tla")
+    good = "pending' = pending \\cup KeysOf(ForeignRead(d))"
+    if good not in text:
+        raise MachineryError("spec self-test: the UpdateFrom line to mutate is not in HDFStoreImpl.tla")
+    (d / "HDFStoreImpl.tla").write_text(text.replace(good, "pending' = pending"))
+    r = ck.tlc("HDFStoreMerge", cfg("M", props=False), workers=WORKERS, timeout=600, count=False, coverage=False,
+               expect_ok=False, spec_dir=d)
+    if r.violated not in ("RoundTrip", "PendingCovers", "AppendEqualsFull"):
+        raise MachineryError(f"spec self-test: the mutated UpdateFrom was not refuted ({r.violated})")
+    ck.extra["spec_selftest_other_file"] = {"mutation": "UpdateFrom leaves pending unchanged", "refuted_by": r.violated,
+                                            "counterexample_length": len(r.counterexample())}
 
 
 def replay_file(ck: Check, path):
@@ -210,18 +267,20 @@ def replay_file(ck: Check, path):
         print("(this violation carries its whole input in the file above; no tour history to re-run)")
         return
     conf = d["config"]
-    ck.tlc("HDFStoreImpl", cfg(conf, props=False), workers=8, timeout=1700, dump=True, coverage=False)
-    g = rp.canonicalise(Graph(ck.work / "HDFStoreImpl.dot"))
+    ck.tlc(module_of(conf), cfg(conf, props=False), workers=WORKERS, timeout=1700, dump=True, coverage=False)
+    g = rp.canonicalise(Graph(ck.work / (module_of(conf) + ".dot")))
     rp.set_graph(g)
     walk = rp.find_walk(g, d["steps"])
     node = "" if d.get("node") in (None, "(root)") else d["node"]
-    r = rp.Replayer(g, ck.work, "replay", node, len(CONFIGS[conf]) > 2, variant=d.get("variant", 0))
+    r = rp.Replayer(g, ck.work, "replay", node, with_problem_of(conf), variant=d.get("variant", 0))
     r.run(walk, final=v.get("clause") == "AppendEqualsFull")
     r.cleanup()
     print("history:", " ; ".join(d["steps"]), "| node:", node or "(root)")
     for x in r.viol + r.soft:
-        ck.violation(x["clause"], {"what": x["what"], "ops": x["ops"][-12:], "config": conf,
-                                   "node": "nested" if node else "root"}, dict(x["detail"], steps=d["steps"], config=conf))
+        sig = {"what": x["what"], "ops": x["ops"][-12:], "config": conf, "node": "nested" if node else "root"}
+        if "text" in x:
+            sig["text"] = x["text"]
+        ck.violation(x["clause"], sig, dict(x["detail"], steps=d["steps"], config=conf))
     if not (r.viol or r.soft):
         print("the history does not violate the specification on this tree")
 
@@ -232,20 +291,21 @@ def _js(x):
 
 def run(ck: Check):
     rng = random.Random(ck.seed)
-    nproc = 16 if ck.thorough else 8
+    import os
+
+    nproc = int(os.environ.get("VERIF_NPROC", "0")) or (16 if ck.thorough else 8)
     rp.preload()
     check_universe()
-    import os
 
     if os.environ.get("VERIF_REPLAY"):
         replay_file(ck, os.environ["VERIF_REPLAY"])
         return
     if ck.thorough:
         plans = [("A", 80, None), ("C", 80, None), ("E", 80, None), ("P", 80, None), ("Q", 100, 15000),
-                 ("B", 120, 30000)]
-        only_tlc = ["D"]
+                 ("B", 120, 30000), ("M", 60, None), ("N", 60, 20000)]
+        only_tlc = ["D", "O"]
     else:
-        plans = [("A", 60, 2500), ("C", 60, 1000), ("E", 60, 1000), ("P", 60, 1000)]
+        plans = [("A", 60, 2500), ("C", 60, 1000), ("E", 60, 1000), ("P", 60, 1000), ("M", 60, 1500)]
         only_tlc = []
     abstract_check(ck, "P")
     spec_selftest(ck)
@@ -261,6 +321,8 @@ def run(ck: Check):
         "values are identified by (key, name): Val(key, n) is turned into exactly representable floats/arrays; "
         "overwriting an output with a different value between exports and deletions are outside the property",
         "keys are numbered by order of first store (points are interchangeable); key 2 is an integer point",
+        "another file read with update_from_hdf (HDFStoreMerge) was written by another Database object, at once or "
+        "incrementally; it holds the same value as the working database for an output they share (no overwriting)",
         "the order of Python's sorted() on the output names is written once in HDFStore!Universe",
         "the raw-layout clause (ImplLayout) is stronger than the property: it binds HDFStoreImpl to the code so that "
         "the invariants TLC checks on the layout transfer to the files gemseo writes",
